@@ -214,6 +214,7 @@ def run(case, out):
         dry = os.path.join(d, "dry")
         shutil.copytree(base, dry)
         clock = Clock(record=True)
+        clock.os_level = True
         ix = FaultStorage(dry, clock, supports_mmap=case["mmap"]).open_index()
         run_final(ix, case, tx)
         ix.close()
@@ -341,6 +342,7 @@ def run(case, out):
         import random
         random.seed(20240917)
         clock2 = Clock(on_tick=on_tick)
+        clock2.os_level = True
         ix2 = FaultStorage(work, clock2, supports_mmap=case["mmap"]).open_index()
         run_final(ix2, case, tx)
         ix2.close()
@@ -367,6 +369,7 @@ def run(case, out):
                 try:
                     random.seed(20240917)
                     ck = Clock(crash_at=k)
+                    ck.os_level = True
                     cix = FaultStorage(cw, ck, supports_mmap=case["mmap"]).open_index()
                     run_final(cix, case, tx)
                     code = 0
